@@ -210,7 +210,7 @@ def child_cli(desc: dict) -> dict:
         return tracer
 
     patches.install()
-    patches.install_determinism(PRNG_ALIGN)
+    patches.install_determinism(PRNG_ALIGN, int(desc.get("invocation", 0)))
     import warnings as _warnings
 
     saved_filters = _warnings.filters[:]
@@ -470,9 +470,11 @@ def gen_base(seed: int, attr_names=None) -> dict:
                                 "missing_dir", "missing_dir", "is_dir", "is_dir", "not_writable", "not_writable", "ro_dir", "ro_dir",
                                 "empty_name", "symlink_longer", "symlink_longer", "symlink_dangling"])
         if out_state == "shorter":
-            files[out_path] = b"old"
+            # (what OUT held before is arbitrary: text, Latin-1 text, binary)
+            files[out_path] = rng.choice([b"old", b"old", b"\xe9t\xe9 en latin-1", b"\x00\x01\xff\xfe bin"])
         elif out_state == "longer":
-            files[out_path] = b"#" * rng.choice([5000, 20000])
+            n_old = rng.choice([5000, 20000])
+            files[out_path] = rng.choice([b"#" * n_old, b"#" * n_old, b"\xff\xfe" + b"\xe9\x00" * (n_old // 2)])
         elif out_state == "same_as_in":
             # the same file, sometimes through a different spelling
             out_path = rng.choice([in_path, in_path, "./" + in_path, "zz/../" + in_path, CWD + "/" + in_path.lstrip("./")])
@@ -581,6 +583,7 @@ def follow_up(base: dict, res: dict, seed: int):
         elif kind == "crlf_result":
             prev = prev.rstrip(b"\n") + b"\r\n"
         d["followup"] = kind
+        d["invocation"] = 1
         files = dict(base["fs"]["files"])
         files[d["out_path"]] = prev.hex()
         d["fs"] = {"files": files, "dirs": list(base["fs"]["dirs"]), "ro": [], "unreadable": [],
@@ -634,6 +637,7 @@ def follow_up(base: dict, res: dict, seed: int):
     # files the first run created next to OUT (a backup, a lock) are not part of the original tree:
     # the second run may reuse or overwrite them
     d["debris"] = sorted(SimFS.norm(k) for k in files if SimFS.norm(k) not in base_by_norm)
+    d["invocation"] = 1
     d["out_state"] = "longer"  # pre-existing, arbitrary length relative to the new result
     d["fs"] = {"files": files, "dirs": list(base["fs"]["dirs"]), "ro": [], "unreadable": [], "mtimes": mt}
     return materialise(d)
@@ -672,6 +676,7 @@ def restart_after_failure(base: dict, failed: dict, res: dict, seed: int, idx: i
     # what the failed run left behind (not part of the original tree) may be cleaned up, reused or
     # overwritten by the second run: only files of the original tree are protected
     d["debris"] = sorted(SimFS.norm(k) for k in files if SimFS.norm(k) not in base_by_norm)
+    d["invocation"] = 1
     d["followup"] = "restart_after_failure:" + kind
     d["prog"], d["variant"], d["special"] = prog, variant, special
     d["out_state"] = "longer"
